@@ -28,6 +28,8 @@ struct Acc {
     responses_seen: u64,
     pend_runs: u64,
     msgs_without_response: u64,
+    streams_with_oversized_answer: u64,
+    reference_mismatch: u64,
 }
 
 struct Stream {
@@ -36,18 +38,82 @@ struct Stream {
     ends: Vec<usize>,
     /// responses each message owes
     resps: Vec<Vec<Vec<Leaf>>>,
+    /// the same as bytes (from a reference execution), and whether they fit N
+    ref_bytes: Vec<Vec<u8>>,
+    fits: Vec<bool>,
 }
 
 /// Trace oracle.  Returns Err((clause, detail)).
+///
+/// `s.ref_bytes[i]` are the response bytes message i owes (taken from a reference
+/// execution through `run`, decoded and matched against the generator-side
+/// expectation beforehand); `s.fits[i]` says whether they fit the N-byte response
+/// buffer.  Between two reads the transport must have been given exactly the
+/// responses of the messages completed by the earlier read, flushed; for a message
+/// whose answer does not fit (an error is reported instead) the bytes written are
+/// not constrained, but they must not disturb the answers of other messages.
 fn check_trace(s: &Stream, out: &RunOut, fault_at: Option<usize>) -> Result<(u64, u64), (String, String)> {
     let mut delivered = 0usize;
-    let mut written: Vec<u8> = Vec::new();
-    let mut flushed_upto = 0usize;
+    let mut w: Vec<u8> = Vec::new(); // written since the last read
+    let mut unflushed = false;
     let mut errored: Option<u32> = None;
     let mut reads = 0u64;
     let mut resp_seen = 0u64;
+    let mut next_msg = 0usize;
     let mut proc_ret: Option<(bool, u32)> = None;
-    let all: Vec<&Vec<Leaf>> = s.resps.iter().flat_map(|m| m.iter()).collect();
+    // accounts for the bytes in `w` against the messages completed so far.  Where an oversized
+    // answer allows arbitrary bytes, every placement of the following answers is tried.
+    fn place(w: &[u8], pos: usize, slack: bool, items: &[Option<&[u8]>], budget: &mut u32) -> bool {
+        if *budget == 0 {
+            return true; // search cut off: do not turn a timeout into a violation
+        }
+        *budget -= 1;
+        match items.first() {
+            None => pos == w.len() || slack,
+            Some(None) => place(w, pos, true, &items[1..], budget),
+            Some(Some(r)) => {
+                if r.is_empty() {
+                    return place(w, pos, slack, &items[1..], budget);
+                }
+                if !slack {
+                    return w.len() >= pos + r.len() && &w[pos..pos + r.len()] == *r && place(w, pos + r.len(), false, &items[1..], budget);
+                }
+                let mut p = pos;
+                while p + r.len() <= w.len() {
+                    if &w[p..p + r.len()] == *r && place(w, p + r.len(), false, &items[1..], budget) {
+                        return true;
+                    }
+                    p += 1;
+                }
+                false
+            }
+        }
+    }
+    let settle = |w: &[u8], next_msg: &mut usize, delivered: usize, reads: u64, resp_seen: &mut u64| -> Result<(), (String, String)> {
+        let done = s.ends.iter().filter(|end| **end <= delivered).count();
+        let items: Vec<Option<&[u8]>> = (*next_msg..done).map(|m| if s.fits[m] { Some(&s.ref_bytes[m][..]) } else { None }).collect();
+        let mut budget = 200_000u32;
+        if !place(w, 0, false, &items, &mut budget) {
+            let owed: Vec<String> = items.iter().map(|i| i.map(|r| esc(r)).unwrap_or_else(|| "<oversized: any bytes>".into())).collect();
+            let total_owed: usize = items.iter().map(|i| i.map(|r| r.len()).unwrap_or(0)).sum();
+            let clause = if w.len() < total_owed {
+                "read-before-due-response-was-written"
+            }
+            else if items.iter().all(|i| i.map(|r| r.is_empty()).unwrap_or(false)) {
+                "wrote-more-than-the-responses"
+            }
+            else {
+                "written-bytes-are-not-the-due-responses"
+            };
+            return Err((
+                clause.into(),
+                format!("before read #{}: the completed messages owe {:?}, the transport was given \"{}\" since the previous read", reads + 1, owed, esc(w)),
+            ));
+        }
+        *resp_seen += items.iter().filter(|i| i.map(|r| !r.is_empty()).unwrap_or(false)).count() as u64;
+        *next_msg = done;
+        Ok(())
+    };
     for (i, e) in out.log.iter().enumerate() {
         let is_transport = matches!(e, Ev::Read { .. } | Ev::AWrite(_) | Ev::AFlush | Ev::AErr { .. });
         if is_transport {
@@ -57,48 +123,32 @@ fn check_trace(s: &Stream, out: &RunOut, fault_at: Option<usize>) -> Result<(u64
         }
         match e {
             Ev::Read { n, .. } => {
+                settle(&w, &mut next_msg, delivered, reads, &mut resp_seen)?;
+                if unflushed {
+                    return Err(("read-before-flush".into(), format!("read #{} issued with written bytes not flushed", reads + 1)));
+                }
+                w.clear();
                 reads += 1;
-                // everything that is due must have been written and flushed
-                let due_msgs = s.ends.iter().filter(|end| **end <= delivered).count();
-                let due: Vec<&Vec<Leaf>> = s.resps[..due_msgs].iter().flat_map(|m| m.iter()).collect();
-                // decode what has been written so far
-                let mut pos = 0usize;
-                let mut k = 0usize;
-                while pos < written.len() {
-                    let (toks, used) = decode_response(&written[pos..]).map_err(|m| ("written-bytes-are-not-responses".to_string(), format!("at read #{}: {}", reads, m)))?;
-                    let want = all.get(k).ok_or_else(|| ("wrote-more-than-the-responses".to_string(), format!("at read #{}: extra response \"{}\"", reads, esc(&written[pos..pos + used]))))?;
-                    match_leaves(&toks, want).map_err(|m| ("response-does-not-match".to_string(), format!("response #{}: {}", k, m)))?;
-                    pos += used;
-                    k += 1;
-                }
-                if k < due.len() {
-                    return Err((
-                        "read-before-due-response-was-written".into(),
-                        format!("read #{} issued although {} of {} due responses have not been written", reads, due.len() - k, due.len()),
-                    ));
-                }
-                // upper bound: nothing can be answered before it has (at least partly) arrived
-                let started = s.ends.iter().enumerate().filter(|(i, _)| delivered > if *i == 0 { 0 } else { s.ends[*i - 1] }).count();
-                let may: usize = s.resps[..started.min(s.resps.len())].iter().map(|m| m.len()).sum();
-                if k > may {
-                    return Err(("response-written-before-its-message-arrived".into(), format!("at read #{}: {} responses written, at most {} can have been asked for", reads, k, may)));
-                }
-                if flushed_upto < written.len() {
-                    return Err(("read-before-flush".into(), format!("read #{} issued with {} written bytes not flushed", reads, written.len() - flushed_upto)));
-                }
-                resp_seen = k as u64;
                 delivered += *n;
             }
             Ev::AWrite(b) => {
                 if b.is_empty() {
                     return Err(("empty-write".into(), "the transport was asked to write zero bytes".into()));
                 }
-                written.extend_from_slice(b);
+                w.extend_from_slice(b);
+                unflushed = true;
             }
-            Ev::AFlush => flushed_upto = written.len(),
-            Ev::AErr { token, .. } => {
+            Ev::AFlush => unflushed = false,
+            Ev::AErr { token, kind, .. } => {
                 if *token == TOKEN_AFTER {
                     return Err(("transport-call-after-error".into(), format!("event {}: transport called again after an error", i)));
+                }
+                if *kind == 0 {
+                    // the failing call was a read: everything due must have been sent before it
+                    settle(&w, &mut next_msg, delivered, reads, &mut resp_seen)?;
+                    if unflushed {
+                        return Err(("read-before-flush".into(), "a read was issued with written bytes not flushed".into()));
+                    }
                 }
                 errored = Some(*token);
             }
@@ -121,24 +171,8 @@ fn check_trace(s: &Stream, out: &RunOut, fault_at: Option<usize>) -> Result<(u64
             return Err(("wrong-token".into(), format!("expected token {} got {:?}", TOKEN_FAULT_BASE + k as u32, errored)));
         }
     }
-    else {
-        // fault-free: the stream ran to its end, so every response must have been written and flushed
-        let mut pos = 0usize;
-        let mut k = 0usize;
-        while pos < written.len() {
-            let (toks, used) = decode_response(&written[pos..]).map_err(|m| ("written-bytes-are-not-responses".to_string(), m))?;
-            let want = all.get(k).ok_or_else(|| ("wrote-more-than-the-responses".to_string(), "extra response at the end".to_string()))?;
-            match_leaves(&toks, want).map_err(|m| ("response-does-not-match".to_string(), m))?;
-            pos += used;
-            k += 1;
-        }
-        if k != all.len() {
-            return Err(("response-missing-at-end-of-stream".into(), format!("{} of {} responses written", k, all.len())));
-        }
-        if flushed_upto != written.len() {
-            return Err(("final-response-not-flushed".into(), "bytes written but never flushed".into()));
-        }
-        resp_seen = k as u64;
+    else if next_msg != s.ends.len() {
+        return Err(("response-missing-at-end-of-stream".into(), format!("{} of {} messages accounted for", next_msg, s.ends.len())));
     }
     Ok((reads, resp_seen))
 }
@@ -178,7 +212,7 @@ fn make_stream(gen: &Gen, rng: &mut Rng, acc: &mut Acc) -> Stream {
         }
         resps.push(r);
     }
-    Stream { bytes, ends, resps }
+    Stream { bytes, ends, resps, ref_bytes: vec![], fits: vec![] }
 }
 
 fn shard(ctx: &Ctx, ifaces: &[&'static IfaceDesc], shard: usize, cases: u64) -> Acc {
@@ -190,13 +224,70 @@ fn shard(ctx: &Ctx, ifaces: &[&'static IfaceDesc], shard: usize, cases: u64) -> 
             iface,
             GenOpts { lit: LitOpts { payload_newline: false, wild_payload: false, max_payload: 5 }, max_units: 3, trailing_semicolon_16: 1, ..Default::default() },
         );
-        let s = make_stream(&gen, &mut rng, &mut acc);
-        // N must hold every message and the responses of every message
+        let mut s = make_stream(&gen, &mut rng, &mut acc);
+        // N holds every message; an answer may or may not fit (then an error is reported instead)
         let ns = (iface.ns)();
-        let n = *ns.iter().max().unwrap();
         let longest = s.ends.iter().scan(0usize, |prev, e| { let l = *e - *prev; *prev = *e; Some(l) }).max().unwrap_or(0);
-        if longest >= n {
+        let cands: Vec<usize> = ns.iter().copied().filter(|n| *n > longest).collect();
+        if cands.is_empty() {
             continue;
+        }
+        let n = if rng.chance(1, 2) { cands[0] } else { *rng.pick(&cands) };
+        // reference: the messages one at a time through run; its bytes are decoded and matched
+        // against the generator-side expectation, then used as the due responses
+        {
+            let mut msgs: Vec<&[u8]> = Vec::new();
+            let mut prev = 0usize;
+            for e in &s.ends {
+                msgs.push(&s.bytes[prev..*e]);
+                prev = *e;
+            }
+            let rf = (iface.run)(&crate::drive::RunSpec { inputs: &msgs, writer: crate::drive::WriterKind::Rec(None), pend_seed: 0 });
+            if rf.crashed() {
+                acc.res.skipped_crash += 1;
+                continue;
+            }
+            let mut cur: Vec<u8> = Vec::new();
+            let mut per: Vec<Vec<u8>> = Vec::new();
+            let mut started = false;
+            for e in &rf.log {
+                match e {
+                    Ev::Mark(_) => {
+                        if started {
+                            per.push(std::mem::take(&mut cur));
+                        }
+                        started = true;
+                    }
+                    Ev::Write(b) => cur.extend_from_slice(b),
+                    _ => {}
+                }
+            }
+            per.push(cur);
+            let mut ok = per.len() == s.ends.len();
+            if ok {
+                for (m, bytes) in per.iter().enumerate() {
+                    let mut pos = 0usize;
+                    for want in &s.resps[m] {
+                        match decode_response(&bytes[pos.min(bytes.len())..]) {
+                            Ok((toks, used)) if match_leaves(&toks, want).is_ok() => pos += used,
+                            _ => ok = false,
+                        }
+                    }
+                    if pos != bytes.len() {
+                        ok = false;
+                    }
+                }
+            }
+            if !ok {
+                // the reference itself is wrong: C04 / C06 territory, not this property's
+                acc.reference_mismatch += 1;
+                continue;
+            }
+            s.fits = per.iter().map(|b| b.len() <= n).collect();
+            s.ref_bytes = per;
+        }
+        if s.fits.iter().any(|f| !*f) {
+            acc.streams_with_oversized_answer += 1;
         }
         acc.distinct.insert(fnv(&s.bytes));
         par::case_begin(&s.bytes, [shard as u64, case, 0, 0]);
@@ -213,10 +304,6 @@ fn shard(ctx: &Ctx, ifaces: &[&'static IfaceDesc], shard: usize, cases: u64) -> 
                 let free = (iface.process)(&ProcSpec { stream: &s.bytes, n, chunks: &chunks, pend_seed: pend, fault_at: None });
                 if free.panic.is_some() && !free.harness_abort() || free.stuck {
                     acc.res.skipped_crash += 1;
-                    continue;
-                }
-                // oversized responses are C05's workload: skip streams whose answers do not fit N
-                if free.log.iter().any(|e| matches!(e, Ev::Error { num: -223, .. } | Ev::Error { num: -310, .. })) {
                     continue;
                 }
                 let t = free.log.iter().filter(|e| matches!(e, Ev::Read { .. } | Ev::AWrite(_) | Ev::AFlush | Ev::AErr { .. })).count();
@@ -284,7 +371,7 @@ fn shard(ctx: &Ctx, ifaces: &[&'static IfaceDesc], shard: usize, cases: u64) -> 
 }
 
 fn canary() -> Result<(), String> {
-    let s = Stream { bytes: b"A?\nA\n".to_vec(), ends: vec![3, 5], resps: vec![vec![vec![Leaf::Int(7)]], vec![]] };
+    let s = Stream { bytes: b"A?\nA\n".to_vec(), ends: vec![3, 5], resps: vec![vec![vec![Leaf::Int(7)]], vec![]], ref_bytes: vec![b"7\n".to_vec(), vec![]], fits: vec![true, true] };
     let mk = |log: Vec<Ev>| RunOut { log, ..Default::default() };
     let good = mk(vec![
         Ev::Read { cap: 16, n: 3 },
@@ -334,6 +421,7 @@ pub fn run(ctx: &Ctx) -> PropResult {
     let mut distinct = HashSet::new();
     let mut fp: BTreeMap<&'static str, u64> = BTreeMap::new();
     let (mut traces, mut reads, mut resp, mut pend, mut nor) = (0, 0, 0, 0, 0);
+    let (mut oversized, mut refbad) = (0, 0);
     for acc in accs {
         distinct.extend(acc.distinct);
         for (k, v) in acc.fault_positions {
@@ -344,6 +432,8 @@ pub fn run(ctx: &Ctx) -> PropResult {
         resp += acc.responses_seen;
         pend += acc.pend_runs;
         nor += acc.msgs_without_response;
+        oversized += acc.streams_with_oversized_answer;
+        refbad += acc.reference_mismatch;
         res.merge(acc.res);
     }
     res.distinct = distinct.len() as u64;
@@ -357,12 +447,14 @@ pub fn run(ctx: &Ctx) -> PropResult {
     res.cov("responses_decoded_and_matched", resp);
     res.cov("traces_with_pending_injection", pend);
     res.cov("messages_without_response", nor);
+    res.cov("streams_with_an_answer_larger_than_n", oversized);
+    res.cov("streams_skipped_because_the_reference_run_disagreed_with_the_expectation", refbad);
     res.samples.truncate(5);
     let described: Vec<J> = vec![J::s("stream \"A?;B:C?\\nA\\n\" byte-wise, error token 1007 injected at transport call 7 (a flush)")];
     res.samples.extend(described.into_iter().take(1));
     res.assumptions = vec![
-        "messages contain no newline inside a payload; every answer fits N".into(),
-        "the due responses come from the generator-side expectation, not from the write segmentation".into(),
+        "messages contain no newline inside a payload; an answer that does not fit N may be replaced by arbitrary bytes for that message only".into(),
+        "the due responses are the bytes of a reference execution through run, decoded and matched against the generator-side expectation; the write segmentation is free".into(),
     ];
     if fp.get("read").copied().unwrap_or(0) == 0 || fp.get("write").copied().unwrap_or(0) == 0 || fp.get("flush").copied().unwrap_or(0) == 0 || resp == 0 {
         res.inconclusive = Some("a transport call kind was never hit by an injected fault".into());
